@@ -292,6 +292,25 @@ static void case_illposed(const Spec2& spec) {
     for (size_t i = 0; i < rs[0].r.size() && i < rs[alg].r.size(); i++) sx::check_eq(rs[alg].r[i], rs[0].r[i], t + " residual " + std::to_string(i + 1));
     for (auto& kv : rs[0].adj) { auto it = rs[alg].adj.find(kv.first); if (it == rs[alg].adj.end()) { sx::fail(t + " unknown missing", kv.first); continue; } sx::check_eq(it->second, kv.second, t + " adjusted " + kv.first); } }
   sx::note("outcome", rs[0].ok ? "adjusted" : rs[0].why);
+  // what is left is the adjustment of the network written without the removed points and without the observations that touch them
+  if (rs[0].ok && !removed[0].empty()) {
+    std::set<std::string> gone; for (auto& x : removed[0]) gone.insert(x.substr(0, x.find(':')));
+    Spec2 red = spec; std::vector<int> keep_pt; std::map<int,int> newidx; std::vector<Real> err2; std::vector<int> kept_obs;
+    red.pts.clear(); for (size_t i = 0; i < spec.pts.size(); i++) if (!gone.count(spec.pts[i].id)) { newidx[(int)i] = (int)red.pts.size(); red.pts.push_back(spec.pts[i]); }
+    red.st.clear(); int k = 0;
+    for (auto& st : spec.st) { St2 t = st; t.obs.clear();
+      for (auto& ob : st.obs) { bool touch = gone.count(spec.pts[st.from].id) || gone.count(spec.pts[ob.to].id) || (ob.kind == 2 && gone.count(spec.pts[ob.to2].id));
+        if (!touch) { O2 o2 = ob; o2.to = newidx[ob.to]; if (ob.kind == 2) o2.to2 = newidx[ob.to2]; t.obs.push_back(o2); err2.push_back(err[k]); kept_obs.push_back(k); } k++; }
+      if (!t.obs.empty() && !gone.count(spec.pts[st.from].id)) { t.from = newidx[st.from]; red.st.push_back(t); } }
+    // a station left with a single direction loses it (gama's own rule); such reduced networks are not compared
+    bool single = false; for (auto& st : red.st) { int nd = 0; for (auto& ob : st.obs) if (ob.kind == 0) nd++; if (nd == 1) single = true; }
+    if (!single && !red.st.empty()) { B2 b; if (build2d(b, red, err2, ALGS[0])) { R2 r = run2d(b, true); std::string t = "removal of " + std::to_string(gone.size()) + " point(s) equals the network written without them:";
+      sx::check_true(r.ok, t + " adjusted", r.why);
+      if (r.ok) { sx::check_true(r.m == rs[0].m && r.n == rs[0].n && r.dof == rs[0].dof, t + " equations, unknowns, degrees of freedom", std::to_string(rs[0].m) + "/" + std::to_string(rs[0].n) + " vs " + std::to_string(r.m) + "/" + std::to_string(r.n));
+        sx::check_eq(r.vpv, rs[0].vpv, t + " sum of squares");
+        if (r.m == rs[0].m) for (int i = 0; i < r.m; i++) sx::check_eq(r.r[i], rs[0].r[i], t + " residual " + std::to_string(i + 1));
+        for (auto& kv : r.adj) { auto it = rs[0].adj.find(kv.first); if (it == rs[0].adj.end()) { sx::fail(t + " unknown missing", kv.first); continue; } if (kv.first.back() != 'R') sx::check_eq(it->second, kv.second, t + " adjusted " + kv.first); } } } }
+  }
   sx::reached("net2d-illposed");
 }
 
@@ -336,6 +355,10 @@ static void gen_cases(const sx::Options& opt, std::vector<sx::Case>& cases) {
       s.st.erase(std::remove_if(s.st.begin(), s.st.end(), [](const St2& t) { return t.obs.empty(); }), s.st.end()); s.st[0].obs.push_back({0, 4, 0, Q(10)}); ill.push_back(s); }   // E seen by one direction only
     { Spec2 s = quad("ill-two-fixed-dirs", "ffaaa", false, false, 26); for (auto& st : s.st) { std::vector<O2> keep; for (auto& o : st.obs) if (!(st.from == 3 || o.to == 3)) keep.push_back(o); st.obs = keep; }
       s.st.erase(std::remove_if(s.st.begin(), s.st.end(), [](const St2& t) { return t.obs.empty(); }), s.st.end()); ill.push_back(s); }                                       // D not observed at all
+    { Spec2 s = quad("ill-angle-target", "ffaaa", true, false, 27); for (auto& st : s.st) { std::vector<O2> keep; for (auto& o : st.obs) if (o.to != 4 && st.from != 4) keep.push_back(o); st.obs = keep; }
+      s.st.erase(std::remove_if(s.st.begin(), s.st.end(), [](const St2& t) { return t.obs.empty(); }), s.st.end()); s.st[1].obs.push_back({2, 0, 4, Q(15)}); ill.push_back(s); }   // E is only the second target of one angle
+    { Spec2 s = quad("ill-angle-first-target", "ffaaa", true, false, 28); for (auto& st : s.st) { std::vector<O2> keep; for (auto& o : st.obs) if (o.to != 4 && st.from != 4) keep.push_back(o); st.obs = keep; }
+      s.st.erase(std::remove_if(s.st.begin(), s.st.end(), [](const St2& t) { return t.obs.empty(); }), s.st.end()); s.st[1].obs.push_back({2, 4, 2, Q(15)}); ill.push_back(s); }   // E is only the first target of one angle
     for (auto& s : ill) { auto sp = std::make_shared<Spec2>(s); add("net2d/illposed/" + s.name, "plane networks", [sp] { case_illposed(*sp); }); } }
   if (on("C08")) { for (int alg = 0; alg < 3; alg++) { auto sp = std::make_shared<Spec2>(freen[0]); add(std::string("net2d/datum/quad-dd/") + ALGS[alg], "plane networks", [sp, alg] { case_datum(*sp, alg, {"ccccc", "ccaaa", "acaca", "aaccc"}); });
       auto sq = std::make_shared<Spec2>(freen[1]); add(std::string("net2d/datum/quad-d/") + ALGS[alg], "plane networks", [sq, alg] { case_datum(*sq, alg, {"ccccc", "ccaaa", "acaca"}); }); } }
